@@ -416,7 +416,20 @@ func (c *C10Case) apply(seed int64) (res opResult) {
 		res.rows, res.names, res.seqs = r2.rows, r2.names, r2.seqs
 		// the result is an alignment like any other: growing it (its own columns appended once more) must leave the
 		// columns it had where they were
-		if out != nil && out.NbSequences() > 0 {
+		// ... and its rows are rows of their own: a residue written into one of them shows in that one only
+		if out != nil && out.NbSequences() > 0 && out.Length() > 0 {
+			for i := range r2.seqs {
+				out.SetSequenceChar(i, 0, "0123456789"[i%10])
+			}
+			rp := collect(out)
+			for i := range rp.seqs {
+				if want := "0123456789"[i%10:i%10+1] + r2.seqs[i][1:]; rp.seqs[i] != want && res.grow == "" {
+					res.grow = fmt.Sprintf("after one residue was written into the first site of every row of the result, row %d (%s) is %q, %q expected: rows share their storage", i, r2.names[i], rp.seqs[i], want)
+				}
+			}
+			r2.seqs = rp.seqs
+		}
+		if out != nil && out.NbSequences() > 0 && res.grow == "" {
 			if cl, err := out.Clone(); err == nil {
 				if err := out.Concat(cl); err == nil {
 					r3 := collect(out)
